@@ -32,7 +32,9 @@ class CachingStreamWrapper(io.IOBase):
 
     def peek(self, n):
         result = self.read(n)
-        self._cache.seek(-len(result), os.SEEK_CUR)
+        if result:
+            self._cache.seek(-len(result), os.SEEK_CUR)
+
         return result
 
     def seekable(self):
